@@ -163,3 +163,13 @@ Theorem c20_translated_char_add_utf8 :
   Some (fst (u8_parser_advance u b),
         match snd (u8_parser_advance u b) with U8None => None | U8Codepoint cp => Some cp | U8Invalid => Some 65533 end).
 Proof. exact g_char_add_utf8. Qed.
+
+(* Action::OscPut as translated: ArrayVec::is_full, the cfg(core) guard, and ArrayVec::push with ITS panic on a full
+   buffer (the hand model has none); storing a payload byte never panics, in any configuration *)
+Theorem c20_translated_osc_put_is_model :
+  forall c p perf b, g_perform_action c p perf AOscPut b = acc perf (perform_action c p AOscPut b).
+Proof. exact g_osc_put_eq. Qed.
+
+Theorem c20_translated_osc_put_push_never_panics :
+  forall c p perf b, b <> 59 -> g_perform_action c p perf AOscPut b <> None.
+Proof. exact g_osc_put_byte_no_panic. Qed.
